@@ -492,11 +492,16 @@ func (c *Cluster) watchPeers() {
 			}
 
 			if !hasMe {
-				c.shutdownLock.Lock()
-				defer c.shutdownLock.Unlock()
 				logger.Info("peer no longer in peerset. Initiating shutdown")
-				c.removed = true
-				go c.Shutdown(c.ctx)
+				// Shutdown() holds shutdownLock while it waits for this
+				// goroutine: never wait for that lock here (a peer
+				// leaving on shutdown is not in the peerset either).
+				go func() {
+					c.shutdownLock.Lock()
+					c.removed = true
+					c.shutdownLock.Unlock()
+					c.Shutdown(c.ctx)
+				}()
 				return
 			}
 		}
